@@ -116,6 +116,9 @@ def _exprs():
               lambda M: [p + q * 2 + _plain_sum(A(M, "b")) for p, q in zip(A(M, "a"), A(M, "b"))]))
     E.append(("a*(b+2)-SUM{a}", None, ["a", "b"],
               lambda M: [p * (q + 2) - _plain_sum(A(M, "a")) for p, q in zip(A(M, "a"), A(M, "b"))]))
+    # a long chain: more than ten operator applications, so the evaluator's temporaries get two-digit names
+    E.append(("c=a+b+a+b+a+b+a+b+a+b+a+b+a", "c", ["a", "b"], lambda M: [7 * p + 6 * q for p, q in zip(A(M, "a"), A(M, "b"))]))
+    E.append(("a+b+a+b+a+b+a+b+a+b+a+b+a", None, ["a", "b"], lambda M: [7 * p + 6 * q for p, q in zip(A(M, "a"), A(M, "b"))]))
     # assignment of a feature to itself: the value must survive (source read after the target was removed = data loss)
     E.append(("a=a", "a", ["a"], lambda M: list(A(M, "a"))))
     E.append(("b=(b)", "b", ["b"], lambda M: list(A(M, "b"))))
